@@ -1,18 +1,24 @@
 #!/bin/sh
-# usage: tools/try_seeded.sh <patch.diff> <Cxx> [<Cyy> ...]   -- applies the patch to /repo, runs the quick checks, undoes it
+# usage: tools/try_seeded.sh <patch.diff> <Cxx> [<Cyy> ...]
+# Runs the quick checks against a scratch worktree of /repo with the patch applied (VERIF_REPO), so /repo itself is
+# never modified and several seeded changes can be evaluated at the same time.  Evidence goes to a scratch directory.
 set -u
 PATCH="$1"; shift
-cd /repo || exit 3
-if ! git diff --quiet; then echo "/repo has uncommitted changes"; exit 3; fi
-git apply "$PATCH" || { echo "patch does not apply"; exit 3; }
+TAG=$(basename "$(dirname "$PATCH")")
+WT=/tmp/seedwt_$TAG
+rm -rf "$WT"; git -C /repo worktree prune
+git -C /repo worktree add -q --detach "$WT" HEAD || exit 3
+( cd "$WT" && git apply "$PATCH" ) || { echo "patch does not apply"; git -C /repo worktree remove --force "$WT"; exit 3; }
 cd /verif
 rc_all=0
+mkdir -p /tmp/seed_evid_$TAG
 for P in "$@"; do
-  ./vcheck run "$P" --tier quick > /tmp/seeded_$P.log 2>&1
+  VERIF_REPO=$WT VERIF_EVID_DIR=/tmp/seed_evid_$TAG ./vcheck run "$P" --tier "${TIER:-quick}" > /tmp/seeded_${TAG}_$P.log 2>&1
   rc=$?
-  echo "== $P exit=$rc"
-  grep -v "^KNOWN-FINDING" /tmp/seeded_$P.log | grep "VIOLATION\|HARNESS\|^   \|quick:" | head -12
+  echo "== $TAG $P exit=$rc"
+  grep -v "^KNOWN-FINDING" /tmp/seeded_${TAG}_$P.log | grep "VIOLATION\|HARNESS\|^   \|quick:\|thorough:" | head -${LINES_MAX:-8} | cut -c1-300
   [ $rc -ne 0 ] && rc_all=1
 done
-git -C /repo checkout -- . 
+git -C /repo worktree remove --force "$WT"
+rm -rf /tmp/seed_evid_$TAG
 exit $rc_all
